@@ -19,9 +19,11 @@ import (
 // ---- damage ---------------------------------------------------------------
 
 type damage struct {
-	Kind string `json:"kind"` // none | flip | cut | burst
+	Kind string `json:"kind"` // none | flip | flip2 | cut | burst
 	Pos  int    `json:"pos"`  // byte offset (flip, burst) or number of bytes kept (cut)
 	Bit  int    `json:"bit,omitempty"`
+	Pos2 int    `json:"pos2,omitempty"` // flip2: second flipped bit
+	Bit2 int    `json:"bit2,omitempty"`
 	Len  int    `json:"len,omitempty"`
 	Fill byte   `json:"fill,omitempty"`
 }
@@ -30,6 +32,8 @@ func (d damage) String() string {
 	switch d.Kind {
 	case "flip":
 		return fmt.Sprintf("flip bit %d of byte %d", d.Bit, d.Pos)
+	case "flip2":
+		return fmt.Sprintf("flip bit %d of byte %d and bit %d of byte %d", d.Bit, d.Pos, d.Bit2, d.Pos2)
 	case "cut":
 		return fmt.Sprintf("truncate to %d bytes", d.Pos)
 	case "burst":
@@ -43,6 +47,9 @@ func (d damage) apply(orig []byte) []byte {
 	switch d.Kind {
 	case "flip":
 		b[d.Pos] ^= 1 << uint(d.Bit)
+	case "flip2":
+		b[d.Pos] ^= 1 << uint(d.Bit)
+		b[d.Pos2] ^= 1 << uint(d.Bit2)
 	case "cut":
 		b = b[:d.Pos]
 	case "burst":
@@ -185,7 +192,7 @@ func childMain(path string) {
 		out.Write(rb)
 		out.WriteByte('\n')
 		out.Flush()
-		if el > 2*time.Millisecond {
+		if el > 100*time.Millisecond {
 			// a damaged length may have made the decoder allocate a lot; give it
 			// back so that the next case starts from the same address-space budget
 			runtime.GC()
